@@ -97,6 +97,9 @@ def run_check(mod, tier, nproc):
     """Run a check module; returns exit code."""
     pid = mod.PROPERTY
     t0 = time.time()
+    import glob
+    for old in glob.glob(os.path.join(REPLAYS, f'{pid}-*.json')):
+        os.remove(old)
     jobs = mod.jobs(tier, env.SEED)
     agg = {'states': 0, 'transitions': 0, 'validated': 0, 'terminals': 0,
            'max_depth': 0, 'evaluations': 0, 'distinct': 0, 'pruned_errors': 0,
